@@ -257,16 +257,20 @@ func checkC01(w *World) {
 		childSel := at.Arms["child"].Callee
 		cases := map[string]bool{}
 		var selCalls []*ssa.Call
-		allInstrs(h.Fn, func(in ssa.Instruction) {
-			if c, ok := in.(*ssa.Call); ok && staticCallee(c) == childSel {
-				selCalls = append(selCalls, c)
-			}
-		})
+		stepFn := h.Fn
+		for _, g := range w.handlerClosure(h.Fn) {
+			allInstrs(g, func(in ssa.Instruction) {
+				if c, ok := in.(*ssa.Call); ok && staticCallee(c) == childSel {
+					selCalls = append(selCalls, c)
+					stepFn = g
+				}
+			})
+		}
 		if len(selCalls) != 1 {
 			w.undecided(P, "R01.9", "implicit child axis", h.Fn.Pos(), fmt.Sprintf("expected one call of the child selector in the Step handler, found %d", len(selCalls)))
 		} else {
 			// NT constants whose equality test leads (true edge) to a block from which the selector call is reachable without passing another test's false edge
-			allInstrs(h.Fn, func(in ssa.Instruction) {
+			allInstrs(stepFn, func(in ssa.Instruction) {
 				ifi, ok := in.(*ssa.If)
 				if !ok {
 					return
